@@ -10,6 +10,9 @@ fn ok<T: TypeInfo + 'static>() { let t = T::type_info(); assert!(!t.path.segment
 '''
 
 def tmpl(t, p, selfty):
+    name = selfty.split("<")[0]
+    if t == "assocnamed": return "%s::%s" % (p, name)
+    if t == "vecassocnamed": return "Vec<%s::%s>" % (p, name)
     return {"direct": "%s" % p, "vec": "Vec<%s>" % p, "opt": "Option<%s>" % p, "arr": "[%s; 2]" % p, "tup": "(%s, u8)" % p, "box": "Box<%s>" % p,
             "result": "Result<%s, String>" % p, "phantom": "PhantomData<%s>" % p, "assoc": "%s::A" % p, "qassoc": "<%s as Cfg>::A" % p,
             "vecassoc": "Vec<%s::A>" % p, "selfbox": "Box<%s>" % selfty, "selfvec": "Vec<%s>" % selfty, "selfkw": "Option<Box<Self>>",
@@ -18,7 +21,8 @@ def tmpl(t, p, selfty):
             "compactc": "#[codec(compact)] u32", "concrete": "u64", "compactp": "#[codec(compact)] %s" % p, "compactassoc": "#[codec(compact)] %s::A" % p}[t]
 
 NEEDS_CFG = {"assoc", "qassoc", "vecassoc", "selfassoc", "compactassoc"}
-MENTIONS = {"compactp", "compactassoc", "direct", "vec", "opt", "arr", "tup", "box", "result", "phantom", "assoc", "qassoc", "vecassoc", "selfmix", "selfassoc", "skipT", "skipNoInfoG"}
+NAMED = {"assocnamed", "vecassocnamed"}
+MENTIONS = {"assocnamed", "vecassocnamed", "compactp", "compactassoc", "direct", "vec", "opt", "arr", "tup", "box", "result", "phantom", "assoc", "qassoc", "vecassoc", "selfmix", "selfassoc", "skipT", "skipNoInfoG"}
 
 def program(g, i):
     name = "G%d" % i
@@ -30,6 +34,7 @@ def program(g, i):
     selfty = name + "<" + ", ".join(gens) + ">"
     fields = [(f["t"], f["p"]) for f in g["fields"]]
     cfg = {p: any(t in NEEDS_CFG and q == p for t, q in fields) for p in params}
+    namedp = {p: any(t in NAMED and q == p for t, q in fields) for p in params}
     ftxt = [tmpl(t, p, selfty) for t, p in fields]
     if lts: ftxt.append("&'a %s" % ("u8" if params[0] in skip else params[0]))
     if len(lts) == 2: ftxt.append("&'b u16")
@@ -39,7 +44,7 @@ def program(g, i):
             ftxt.append("PhantomData<%s>" % p)
     default = "default" in M and not cfg[params[-1]]
     def pdecl(p):
-        b = (["Cfg"] if cfg[p] else []) + (["Clone"] if "inline" in M else [])
+        b = (["Cfg"] if cfg[p] else []) + (["Named"] if namedp[p] else []) + (["Clone"] if "inline" in M else [])
         s = p + (": " + " + ".join(b) if b else "")
         if default and p == params[-1]: s += " = u8"
         return s
@@ -52,6 +57,7 @@ def program(g, i):
         bs = ["%s: TypeInfo + 'static" % p for p in params if p not in skip]
         for t, p in fields:
             if t in NEEDS_CFG: bs.append("%s::A: TypeInfo + 'static" % p)
+            if t in NAMED: bs.append("%s::%s: TypeInfo + 'static" % (p, name))
             if t == "compactassoc": bs.append("%s::A: ::scale_info::scale::HasCompact" % p)
             if t == "compactp": bs.append("%s: ::scale_info::scale::HasCompact" % p)
         attrs.append("bounds(" + ", ".join(dict.fromkeys(bs)) + ")")
@@ -72,11 +78,14 @@ def program(g, i):
     for p in params:
         if p in skip:
             need_cd = "inline" in M or "where" in M
-            inst[p] = ("RC" if need_cd else "R") if cfg[p] else ("NC" if need_cd else "NoInfo")
+            inst[p] = ("RC" if need_cd else "R") if (cfg[p] or namedp[p]) else ("NC" if need_cd else "NoInfo")
         else:
             inst[p] = "u8"
     args = ["'static"] * len(lts) + [inst[p] for p in params] + (["3"] if constp else [])
-    return PRE + head + body + "\nfn main() { ok::<%s<%s>>(); }\n" % (name, ", ".join(args)), head + body
+    pre2 = ""
+    if any(namedp.values()):      # a trait whose associated type carries the deriving type's name
+        pre2 = "pub trait Named { type %s; }\nimpl Named for u8 { type %s = u32; }\nimpl Named for R { type %s = u8; }\nimpl Named for RC { type %s = u8; }\n" % ((name,) * 4)
+    return PRE + pre2 + head + body + "\nfn main() { ok::<%s<%s>>(); }\n" % (name, ", ".join(args)), head + body
 
 # constructions of the positive grammar that need two cooperating types or a specific attribute shape
 EXTRA = {
